@@ -883,17 +883,22 @@ class Fat32Table(FatTable):
 
     def free(self):
         with self._lock.read:
+            start = 0
             if self._info is not None:
                 last_alloc = self._info.last_alloc
                 if self.min_valid <= last_alloc < self._scan_end():
                     # If we have a valid info-sector, start scanning from the
                     # last allocated cluster plus one
-                    for cluster in range(last_alloc + 1, self._scan_end()):
-                        if self[cluster] == 0 and self.min_valid < cluster:
-                            yield cluster
-                        if cluster >= self.max_valid:
-                            break
-            yield from super().free()
+                    start = last_alloc + 1
+            # ... then wrap around to the entries before it, so that no
+            # cluster is yielded twice by one scan
+            for scan in (range(start, self._scan_end()), range(0, start)):
+                for cluster in scan:
+                    if self[cluster] == 0 and self.min_valid < cluster:
+                        yield cluster
+                    if cluster >= self.max_valid:
+                        break
+        raise OSError(errno.ENOSPC, os.strerror(errno.ENOSPC))
 
     def get_all(self, cluster):
         with self._lock.read:
